@@ -24,6 +24,9 @@ func newJSONMarshalling(config Config, tmpl *template.Template, imports *common.
 		config: config,
 		tmpl: tmpl.Funcs(template.FuncMap{
 			"formatType": typeFormatter.formatType,
+			"formatRawRef": func(pkg string, ref string) string {
+				return typeFormatter.formatRef(ast.NewRef(pkg, ref), false)
+			},
 			"importStdPkg": func(pkg string) string {
 				return imports.Add(pkg, pkg)
 			},
